@@ -712,6 +712,8 @@ var c10ImpTrees = []c10ImpTree{
 	{"diamond", map[string]string{"main.arrai": "//{./b}.v + //{./c}.v", "b.arrai": "(v: //{./d} + 1)", "c.arrai": "(v: //{./d} + 2)", "d.arrai": "40"}, "main.arrai", false},
 	{"missing", map[string]string{"main.arrai": "//{./nosuch}"}, "main.arrai", false},
 	{"badchild", map[string]string{"main.arrai": "//{./b}", "b.arrai": "(1 +"}, "main.arrai", false},
+	{"panicchild", map[string]string{"main.arrai": "//{./b}", "b.arrai": `"\q"`}, "main.arrai", false},
+	{"panicgrandchild", map[string]string{"main.arrai": "[//{./b}, //{./b}]", "b.arrai": "(x: //{./c})", "c.arrai": `"\q"`}, "main.arrai", false},
 	{"self", map[string]string{"main.arrai": "//{./main}"}, "main.arrai", true},
 	{"two", map[string]string{"main.arrai": "//{./b}", "b.arrai": "//{./main}"}, "main.arrai", true},
 	{"three", map[string]string{"main.arrai": "(a: //{./b})", "b.arrai": "[//{./c}]", "c.arrai": "{//{./main}}"}, "main.arrai", true},
@@ -741,6 +743,16 @@ func c10RunImport(cfg *core.Config, i int) core.CaseResult {
 	})
 	o = c10Report(ctx, o, false)
 	r.note("import", "import tree "+t.Name, o, map[string]string{"tree": t.Name})
+	// A host that keeps one import cache and recovers from panics (shell, server) evaluates the same
+	// script again through the SAME cache: whatever the first attempt did (value, error, panic), the
+	// second must also end - an entry left "in flight" would block it forever (hang monitor).
+	c10Cur(cfg, "import tree "+t.Name+" (second evaluation, same import cache) in "+dir)
+	o2 := c10Guard("eval", func() (rel.Value, error) {
+		return syntax.EvalWithScope(ctx, main, t.Files[t.Main], rel.Scope{})
+	})
+	o2 = c10Report(ctx, o2, false)
+	r.note("import", "import tree "+t.Name+" again", o2, map[string]string{"tree": t.Name, "attempt": "2"})
+	r.res.Cover = append(r.res.Cover, "imp2/"+t.Name+"/"+o2.Mode)
 	r.res.Cover = append(r.res.Cover, "imp/"+t.Name+"/"+o.Mode)
 	if t.Name == "diamond" && o.Mode == "value" {
 		if n, ok := o.Val.(rel.Number); ok && n.Float64() == 83 {
